@@ -41,7 +41,7 @@ WEIGHTS = [5, 7, 7, 3, 10, 10, 2, 2, 4, 3, 2, 4, 2, 2, 4, 4, 3, 4, 4]
 
 def budget(tier):
     if tier == "quick":
-        return dict(runs=60000, wall=75, chunk=300)
+        return dict(runs=32000, wall=75, chunk=200)
     return dict(runs=600000, wall=840, chunk=1000)
 
 
@@ -72,6 +72,14 @@ def generate(run_seed, tier):
                 kinds.append(r.choice(world.BYTE_FAULTS))
         if r.random() < 0.06:
             kinds = []
+        # Byzantine sender: well-formed containers around hostile values
+        if r.random() < 0.12 and e not in ("sigdecode_strings",
+                                            "verify_strings"):
+            it["byz"] = r.choice(["scalar", "scalar", "huge_version",
+                                  "huge_oid", "huge_int", "zero_point",
+                                  "offcurve_point"])
+            it["byz_v"] = r.randrange(1 << 16)
+            kinds = kinds[:r.choice([0, 0, 1])]
         it["faults"] = kinds
         items.append(it)
     return dict(curve=cname, d=d, items=items)
@@ -139,8 +147,15 @@ def execute(prog):
             data = [bytes(data[0]), bytes(data[1])]
         else:
             data = bytes(sk.sign_deterministic(msg, sigencode=lu.sigencode_der))
-        # ---- faults
+        # ---- Byzantine sender
         descr = []
+        if it.get("byz") and not isinstance(data, list):
+            nd = _byzantine(it, e, mc, prog["d"], data)
+            if nd is not None and nd != data:
+                data = nd
+                descr.append("byzantine " + it["byz"])
+                core.bump(out["faults"], "byz_" + it["byz"])
+        # ---- faults
         if isinstance(data, list):
             from .c12 import _strings_fault
             for k in it["faults"]:
@@ -239,6 +254,13 @@ def execute(prog):
             return out
         except Exception as ex:
             site = _raising_function(ex)
+            if isinstance(ex, ValueError) and "Exceeds the limit" in str(ex):
+                site += "/intstrlimit"
+            kid = core.match_known(ID, "%s/undocumented/%s-%s-%s" % (
+                ID, e, type(ex).__name__, site))
+            if kid:
+                core.bump(out["known"], kid)
+                continue
             out["violation"] = core.violation(
                 ID, "undocumented", "%s-%s-%s" % (e, type(ex).__name__, site),
                 "%s raised %s(%s) [in %s] on %s  [faults: %s]" % (
@@ -267,6 +289,78 @@ def execute(prog):
     out["digest"] = core.digest_of(log)
     out["steps"] = out["ops"]       # deliveries
     return out
+
+
+def _byzantine(it, e, mc, d, data):
+    """Hostile but well-formed encodings built with the harness's encoder."""
+    from ..model import der as mder
+    from ..model import ec
+    kind = it["byz"]
+    v = it["byz_v"]
+    n = mc.n
+    L = mc.nlen
+    Q = ec.mul(mc, d, mc.G)
+    pt = ec.encode_point(mc, Q, "uncompressed")
+    huge = (1 << (8 * (2000 + v % 3000))) + v
+    pem = e.endswith("_pem")
+    priv = e.startswith(("sk_", "ecdh_priv"))
+    pub = e.startswith(("vk_", "ecdh_pub"))
+    sig = e.startswith(("sigdecode", "verify"))
+
+    def wrap(body, label):
+        return mder.pem(body, label) if pem else body
+    if kind == "scalar" and priv:
+        dv = [0, n, n + 1, (1 << (8 * L)) - 1, n - 1, 1][v % 6]
+        db = dv.to_bytes(L, "big")
+        if e in ("sk_from_string", "ecdh_priv_bytes"):
+            return db
+        if it["fmt"] == "ssleay":
+            return wrap(mder.ec_private_key(mc.oid, db, pt), "EC PRIVATE KEY")
+        return wrap(mder.pkcs8(mc.oid, db, pt), "PRIVATE KEY")
+    if kind == "huge_version" and priv and not e.endswith(("string", "bytes")):
+        inner = mder.enc_seq(mder.enc_int(huge),
+                             mder.enc_octets(d.to_bytes(L, "big")),
+                             mder.enc_ctx(0, mder.enc_oid(mc.oid)))
+        if it["fmt"] == "ssleay" or v % 2:
+            return wrap(inner, "EC PRIVATE KEY")
+        return wrap(mder.enc_seq(
+            mder.enc_int(huge),
+            mder.enc_seq(mder.enc_oid(mder.OID_EC_PUBLIC_KEY),
+                         mder.enc_oid(mc.oid)),
+            mder.enc_octets(mder.ec_private_key(mc.oid, d.to_bytes(L, "big"),
+                                                pt))), "PRIVATE KEY")
+    if kind == "huge_oid" and (pub or priv) and \
+            not e.endswith(("string", "bytes")):
+        bad_oid = tuple(mc.oid[:-1]) + (huge,)
+        alg = mder.OID_EC_PUBLIC_KEY if v % 2 else \
+            tuple(mder.OID_EC_PUBLIC_KEY[:-1]) + (huge,)
+        cur = bad_oid if v % 2 else mc.oid
+        if pub:
+            return wrap(mder.enc_seq(
+                mder.enc_seq(mder.enc_oid(alg), mder.enc_oid(cur)),
+                mder.enc_bits(pt, 0)), "PUBLIC KEY")
+        if it["fmt"] == "ssleay":
+            return wrap(mder.ec_private_key(bad_oid, d.to_bytes(L, "big"),
+                                            pt), "EC PRIVATE KEY")
+        return wrap(mder.enc_seq(
+            mder.enc_int(1),
+            mder.enc_seq(mder.enc_oid(alg), mder.enc_oid(cur)),
+            mder.enc_octets(mder.ec_private_key(mc.oid, d.to_bytes(L, "big"),
+                                                pt))), "PRIVATE KEY")
+    if kind == "huge_int" and sig and "der" in e:
+        return mder.enc_sig(huge, 1 + v % (n - 1)) if v % 2 else \
+            mder.enc_sig(1 + v % (n - 1), huge)
+    if kind in ("zero_point", "offcurve_point") and pub:
+        P = mc.plen
+        if kind == "zero_point":
+            raw = bytes(2 * P)
+        else:
+            raw = ((Q[0] + 1) % mc.p).to_bytes(P, "big") + \
+                Q[1].to_bytes(P, "big")
+        if e in ("vk_from_string", "ecdh_pub_bytes"):
+            return raw if v % 2 else b"\x04" + raw
+        return wrap(mder.spki(mc.oid, b"\x04" + raw), "PUBLIC KEY")
+    return None
 
 
 def _use(e, res, lk, lecdh, msg):
